@@ -3,11 +3,14 @@
 (* Bounded input domains of module Version and the exhaustive check of     *)
 (* transcription = reference on them.                                      *)
 (*                                                                         *)
-(*   SpecA  one state per pair of versions over (0..MaxV)^3                *)
-(*          INVARIANT InvPairs                                             *)
-(*   SpecB  one state per build case of the plan (constant Plan, chosen by *)
-(*          the driver through `Plan <- PlanQuick` ...)                    *)
-(*          INVARIANT InvBuild                                             *)
+(*   Spec   seed states and their successors:                              *)
+(*     "pseed" <<class pair, a>>  ->  "pair" <<a, b>> for every b            *)
+(*                                    INVARIANT InvPairs                   *)
+(*     "seed"  <<plan parameters, engine>>  ->  "case" one per build case  *)
+(*             of that engine (constant Plan, chosen by the driver through *)
+(*             `Plan <- PlanQuick` ...)        INVARIANT InvBuild           *)
+(*   (the seed level lets the worker threads evaluate the cases, and is    *)
+(*   what Version_Gen prints)                                              *)
 (*                                                                         *)
 (* A build case is structural (what TLC chooses and the harness            *)
 (* materialises): an engine (<= 3 algorithms of kind task / analysis, 1-2  *)
@@ -20,7 +23,8 @@
 (***************************************************************************)
 EXTENDS Version, SequencesExt
 
-CONSTANT Plan       \* set of plan records, see PlanQuick below
+CONSTANTS Plan,        \* set of plan records, see PlanQuick below
+          ClassPairs   \* set of <<class of a, class of b>> the real operators are evaluated on
 
 ASSUME LexIsStrictTotalOrder
 
@@ -54,7 +58,10 @@ Engines2 == { MkEngine(sc, <<k1, k2>>, << <<2>>, <<1, 1>> >>, ed) :
 Engines3 == { MkEngine(sc, <<k1, k2, k3>>, << <<2>>, <<1, 1>>, <<1>> >>, ed) :
                 sc \in Schemes, k1 \in Kinds, k2 \in Kinds, k3 \in Kinds,
                 ed \in SUBSET { <<1, 2>>, <<1, 3>>, <<2, 3>> } }
-Engines3Q == { e \in Engines3 : Len(e.edges) \in {0, 2} }
+Engines1Q == { MkEngine("pkgs", <<k>>, <<sh>>, {}) : k \in Kinds, sh \in { <<1>>, <<2>>, <<1, 1>>, <<1, 2>> } }
+Engines3Q == { MkEngine(sc, <<k1, k2, k3>>, << <<2>>, <<1, 1>>, <<1>> >>, ed) :
+                sc \in Schemes, k1 \in Kinds, k2 \in Kinds, k3 \in Kinds,
+                ed \in { {}, { <<1, 2>>, <<2, 3>> } } }
 EnginesH1 == { MkEngine("pkgs", <<k>>, <<sh>>, {}) : k \in Kinds, sh \in { <<1>>, <<2>>, <<1, 1>> } }
 EnginesH2 == { MkEngine(sc, ks, << <<1>>, <<1>> >>, { <<1, 2>> }) :
                 sc \in Schemes, ks \in { <<"task", "analysis">>, <<"analysis", "task">> } }
@@ -109,8 +116,11 @@ Pick(e, i, lv) == LET ns == Len(e.algs[i].svs) IN
                   ELSE IF lv = 2 THEN <<i, ns>>
                   ELSE <<i, ns, Len(e.algs[i].svs[ns].vals)>>
 DSets(e, dmode) ==
-    IF dmode = "all" THEN SUBSET Idx(e)
-    ELSE UNION { { { Pick(e, i, lv[i]) : i \in S } : lv \in [S -> Levels] } : S \in SUBSET DOMAIN e.algs }
+    IF dmode = "all" THEN SUBSET Idx(e)                       \* every subset of the elements
+    ELSE IF dmode = "same"                                    \* a set of algorithms, all bumped at one level
+    THEN {{}} \cup { { Pick(e, i, lv) : i \in S } : S \in (SUBSET DOMAIN e.algs) \ {{}}, lv \in Levels }
+    ELSE \* "byalg": a set of algorithms, each bumped at its own level
+         UNION { { { Pick(e, i, lv[i]) : i \in S } : lv \in [S -> Levels] } : S \in SUBSET DOMAIN e.algs }
 
 MkCase(e, D, st, f, T) ==
     LET es == ElSeq(e) IN
@@ -153,24 +163,22 @@ T2 == <<"T1", "T2">>
 DirectPlan(es, dm, sts, fs, ts) == [engines |-> es, dmode |-> dm, styles |-> sts, fields |-> fs, targets |-> ts, hist |-> FALSE]
 HistPlan(es, dm, fs, ts)        == [engines |-> es, dmode |-> dm, styles |-> {}, fields |-> fs, targets |-> ts, hist |-> TRUE]
 
-PlanQuick == { DirectPlan(Engines1, "all", StyleQuick, {3}, {T0, T2}),
-               DirectPlan(Engines2, "byalg", StyleQuick, {2}, {T0, T2}),
-               DirectPlan(Engines3Q, "byalg", StyleOne, {1}, {T2}) }
+PlanQuick == { DirectPlan(Engines1Q, "all", StyleQuick, {3}, {T2}),
+               DirectPlan(Engines1Q, "all", StyleOne, {2}, {T0}),
+               DirectPlan(Engines2, "byalg", StyleQuick, {2}, {T2}),
+               DirectPlan(Engines2, "byalg", StyleOne, {1}, {T0}),
+               DirectPlan(Engines3Q, "same", StyleOne, {1}, {T2}) }
 PlanT1 == { DirectPlan(Engines1, "all", StyleCover, {1, 2, 3}, {T0, T1, T2}) }
 PlanT2 == { DirectPlan(Engines2, "byalg", StyleCover, {1, 2, 3}, {T0, T1, T2}) }
 PlanT3 == { DirectPlan(Engines3, "byalg", StyleQuick, {2}, {T0, T2}) }
 PlanH1 == { HistPlan(EnginesH1, "all", {3}, {T0, T2}) }
 PlanH2 == { HistPlan(EnginesH2, "byalg", {2}, {T2}) }
-PlanCov == { DirectPlan({ e \in Engines3Q : e.edges = <<>> /\ e.algs[1].pkg = e.algs[2].pkg }, "byalg", StyleOne, {1}, {T2}) }
 PlanTiny == { DirectPlan({ MkEngine("pkgs", <<"task">>, << <<1>> >>, {}) }, "all", StyleOne, {3}, {T2}) }
 
 CasesFor(p, e) ==
     IF p.hist
     THEN { MkHistCase(e, hs, f, T) : hs \in HistSeqs(e, p.dmode), f \in p.fields, T \in p.targets }
     ELSE { MkCase(e, D, st, f, T) : D \in DSets(e, p.dmode), st \in p.styles, f \in p.fields, T \in p.targets }
-(* the cases are enumerated plan by plan and engine by engine (a single constant
-   set of all cases is an order of magnitude slower in TLC) *)
-InitCases == \E p \in Plan : \E e \in p.engines : cs \in CasesFor(p, e)
 
 -----------------------------------------------------------------------------
 (* the model's view of a structural case, and the transcription's result on it *)
@@ -180,32 +188,36 @@ Norm(c) ==
     IN
     [algs |-> [i \in DOMAIN e.algs |-> [name |-> AlgName(e, i), kind |-> e.algs[i].kind]],
      targets |-> c.targets,
-     extra |-> 0,
      els |-> [k \in DOMAIN c.pers |->
-                LET x == es[k]
-                    cv == VerStr(CurOf(e, x))
-                    ps == [j \in DOMAIN c.pers[k].vers |-> VerStr(c.pers[k].vers[j])]
-                IN [owner |-> AlgName(e, x[1]), level |-> Len(x), cur |-> cv,
-                    present |-> c.pers[k].present, pers |-> ps,
-                    aincur |-> TRUE, acur |-> cv,
-                    apresent |-> c.pers[k].present, apers |-> ps]]]
+                [owner |-> AlgName(e, es[k][1]), level |-> Len(es[k]),
+                 incur |-> TRUE, cur |-> VerStr(CurOf(e, es[k])),
+                 present |-> c.pers[k].present,
+                 pers |-> [j \in DOMAIN c.pers[k].vers |-> VerStr(c.pers[k].vers[j])]]]]
 
 ImplResult(c) ==
+    LET ans == ImplAns(c) IN
     [err |-> "",
-     que |-> SetToSeq(ImplQue(c)),
-     nodes |-> [i \in DOMAIN c.algs |-> [tag |-> c.algs[i].name, todo |-> SetToSeq(ImplTodo(c, c.algs[i].name))]]]
+     que |-> SetToSeq({ a \in AlgNames(c) : ImplTodoIf(c, ans, a) # {} }),
+     nodes |-> [i \in DOMAIN c.algs |-> [tag |-> c.algs[i].name, todo |-> SetToSeq(ImplTodoIf(c, ans, c.algs[i].name))]]]
 
-InvPairs == PairClauses(pr[1], pr[2], ImplOps(pr[1], pr[2]), ImplOps(pr[2], pr[1])) = {}
+Classes == {"plain", "local", "getver", "alg", "anz", "reg", "sv", "val"}
+ClassPairsQuick == { <<"plain", "plain">>, <<"alg", "sv">>, <<"val", "local">>, <<"getver", "anz">> }
+ClassPairsAll   == Classes \X Classes
 
-(* SpecB: a seed state <<plan, engine>> (pr = 0) has one successor per case of that
-   engine (pr = 1), holding the normalised case and the transcription's result, so
-   that the clauses are evaluated by the worker threads on fully evaluated values *)
-SeedsB == UNION { { <<p, e>> : e \in p.engines } : p \in Plan }
-NextB == /\ pr = 0 /\ pr' = 1
-         /\ \E raw \in CasesFor(cs[1], cs[2]) :
-               LET n == Norm(raw) IN cs' = [n |-> n, r |-> ImplResult(n), nstale |-> raw.nstale]
-InvBuild == pr = 1 => BuildClauses(cs.n, cs.r) = {}
+Params(p) == [dmode |-> p.dmode, styles |-> p.styles, fields |-> p.fields, targets |-> p.targets, hist |-> p.hist]
+SeedsB == UNION { { <<Params(p), e>> : e \in p.engines } : p \in Plan }
 
-SpecA == pr \in Ver \X Ver /\ cs = 0 /\ [][UNCHANGED mvars]_mvars
-SpecB == pr = 0 /\ cs \in SeedsB /\ [][NextB]_mvars
+Init == \/ ph = "pseed" /\ pr \in ClassPairs \X Ver /\ cs = 0
+        \/ ph = "seed"  /\ pr = 0 /\ cs \in SeedsB
+Next == \/ /\ ph = "pseed" /\ ph' = "pair"
+           /\ \E b \in Ver : pr' = <<pr[2], b>>
+           /\ cs' = 0
+        \/ /\ ph = "seed" /\ ph' = "case"
+           /\ pr' = 0
+           /\ \E raw \in CasesFor(cs[1], cs[2]) :
+                 LET n == Norm(raw) IN cs' = [n |-> n, r |-> ImplResult(n), nstale |-> raw.nstale]
+Spec == Init /\ [][Next]_mvars
+
+InvPairs == ph = "pair" => PairClauses(pr[1], pr[2], ImplOps(pr[1], pr[2]), ImplOps(pr[2], pr[1])) = {}
+InvBuild == ph = "case" => BuildClauses(cs.n, cs.r) \cup FaithClauses(cs.n, cs.n, 0) = {}
 =============================================================================
